@@ -7,7 +7,6 @@ import (
 	"regexp"
 	"strings"
 	"testing"
-	"testing/synctest"
 	"time"
 
 	"github.com/mgtv-tech/redis-GunYu/config"
@@ -207,7 +206,7 @@ func biStart(ro *RedisOutput, runID string, offset int64) *biRun {
 	r := &biRun{ro: ro, g: g, cancel: cancel, done: make(chan error, 1)}
 	rd := newHReader(g, runID, offset, -1, true)
 	go func() { r.done <- ro.Send(ctx, rd) }()
-	synctest.Wait()
+	aofWait()
 	r.poll()
 	return r
 }
@@ -225,12 +224,12 @@ func (r *biRun) poll() {
 
 func (r *biRun) feed(b []byte) {
 	r.g.Release(b)
-	synctest.Wait()
+	aofWait()
 	r.poll()
 }
 
 func (r *biRun) wait() {
-	synctest.Wait()
+	aofWait()
 	r.poll()
 }
 
@@ -238,15 +237,15 @@ func (r *biRun) wait() {
 // frontier and returns; then everything is torn down.
 func (r *biRun) finish() {
 	r.g.Close(nil)
-	synctest.Wait()
+	aofWait()
 	r.poll()
 	if !r.ended {
 		time.Sleep(5 * time.Second)
-		synctest.Wait()
+		aofWait()
 		r.poll()
 	}
 	r.cancel()
-	synctest.Wait()
+	aofWait()
 	r.poll()
 }
 
@@ -254,11 +253,11 @@ func (r *biRun) finish() {
 func (r *biRun) kill() {
 	r.cancel()
 	r.g.Close(nil)
-	synctest.Wait()
+	aofWait()
 	r.poll()
 	if !r.ended {
 		time.Sleep(30 * time.Second)
-		synctest.Wait()
+		aofWait()
 		r.poll()
 	}
 }
